@@ -98,6 +98,8 @@ namespace cgi {
 				return;
 			}
 
+			buffer_.back() = 0; // sentinel: the header block may lack its final NUL
+
 			char const *p=&buffer_[sep_ + 1];
 			while(p < &buffer_.back()) {
 				char *key=pool_.add(p);
